@@ -22,8 +22,10 @@ def gen_config(rng, required=None, defender=None, save=None, max_steps=None):
     env["required_players"] = required if required is not None else rng.choice([1, 1, 2, 2, 3])
     env["rewards"] = {"step": rng.choice([-1, 0, -3]), "success": rng.choice([100, 7, 0]), "fail": rng.choice([-10, -5, 0])}
     if rng.random() < 0.2:
-        # fractional rewards (multiples of a quarter): the configuration takes any number
-        env["rewards"] = {"step": rng.choice([-0.5, -1.25, 0.25]), "success": rng.choice([10.5, 7, 0.75]), "fail": rng.choice([-2.5, -0.75, -3])}
+        # fractional rewards (binary fractions down to 1/16, exact in floating point, finer than two decimals): the configuration
+        # takes any number, and what is sent, stored and recorded is the exact sum
+        env["rewards"] = {"step": rng.choice([-0.5, -1.25, 0.25, -0.125, -0.0625]), "success": rng.choice([10.5, 7, 0.75, 10.0625]),
+                          "fail": rng.choice([-2.5, -0.75, -3, -5.0625, -0.375])}
     if rng.random() < 0.35:
         # a partial rewards section (absent names default to 0), or none at all
         for k in ("step", "success", "fail"):
@@ -185,6 +187,16 @@ GARBAGE = ["   ", "not json", "{", "[1,2]", "null", "{}", '{"action_type": "Acti
            '{"action_type": "ActionType.JoinGame", "parameters": {"agent_info": {"name": "x", "role": "Attacker", "team": "red"}}}']
 
 
+# a well-formed request followed by more bytes in the same message is not JSON: refused whole, nothing of it is played
+_V_SCAN = '{"action_type": "ActionType.ScanNetwork", "parameters": {"source_host": {"ip": "192.168.2.2"}, "target_network": {"ip": "192.168.1.0", "mask": 24}}}'
+_V_RESET = '{"action_type": "ActionType.ResetGame", "parameters": {"request_trajectory": false}}'
+_V_QUIT = '{"action_type": "ActionType.QuitGame", "parameters": {}}'
+_V_JOIN = '{"action_type": "ActionType.JoinGame", "parameters": {"agent_info": {"name": "x", "role": "Attacker"}}}'
+TRAILING = [_V_SCAN + " x", _V_SCAN + _V_SCAN, _V_RESET + " }", _V_RESET + "EOF", _V_QUIT + ",", _V_QUIT + " " + _V_SCAN[:40], _V_JOIN + "]",
+            _V_SCAN + "\n" + _V_RESET]
+GARBAGE += TRAILING
+
+
 # roles that are not allowed: unknown names and values that are not even text (a JSON list, object, number, null, boolean)
 BAD_ROLES = ["Hacker", "", "attacker", ["Attacker"], {"role": "Attacker"}, 7, None, True, [], 1.5]
 
@@ -331,9 +343,74 @@ def directed_config(rng, required, max_steps, goal_at_once=False, defender=False
 def directed(rng, k):
     """Run the k-th directed scenario; returns (Session, cfg, draw)."""
     kinds = ["eof", "readerr", "quit", "undecodable"]
-    variant = (k // 18) % 2
-    k = k % 18
-    if k == 17:
+    variant = (k // 20) % 2
+    k = k % 20
+    if k == 19:
+        # blocks placed by ONE agent and learned by ANOTHER through FindData on a host it controls: the views held and sent
+        # stay sets (they decode to themselves), and both agents - who now know blocks of the same host - can leave
+        cfg, draw = directed_config(rng, 2, 12)
+        cfg["coordinator"]["agents"]["Defender"].pop("max_steps", None)
+        S = CR.Session(cfg, draw=draw)
+        a, dd = ("10.2.19.1", 1), ("10.2.19.2", 2)
+        S.connect(a); S.connect(dd); S.settle()
+        _join(S, a, "att", "Attacker"); _join(S, dd, "def", "Defender"); S.settle()
+        fd, dfd = game_msg("FindData", source_host=ip("192.168.2.2"), target_host=ip("192.168.2.2"))
+        if variant == 1:
+            S.send(a, fd, dfd); S.settle()
+        for blocked in ("192.168.1.2", "192.168.1.3"):
+            t, d = game_msg("BlockIP", source_host=ip("192.168.2.2"), target_host=ip("192.168.2.2"), blocked_host=ip(blocked))
+            S.send(dd, t, d); S.settle()
+            if variant == 1:
+                S.send(a, fd, dfd); S.settle()
+        S.send(a, fd, dfd); S.settle()
+        S.send(dd, fd, dfd); S.settle()
+        _scan(S, a); S.settle()
+        if variant == 0:
+            S.send(dd, msg("QuitGame"), {"kind": "quit"}); S.settle()
+            S.send(a, msg("QuitGame"), {"kind": "quit"}); S.settle()
+        else:
+            _leave(S, a, "eof"); S.settle()
+            _leave(S, dd, "quit"); S.settle()
+        c, e = ("10.2.19.3", 3), ("10.2.19.4", 4)
+        S.connect(c); S.connect(e); S.settle()
+        _join(S, c, "att2", "Attacker"); _join(S, e, "def2", "Defender"); S.settle()
+        _scan(S, c); S.settle()
+    elif k == 18:
+        # two attackers that control the same hosts: one ends (out of steps) right after looking into a host, then the other
+        # delivers the goal's datum to THAT host and succeeds. The ended agent's stored view, reason and reward stay as they
+        # were when it ended (its final answer, built after the other's delivery, and every refusal afterwards)
+        cfg, draw = directed_config(rng, 2, 3)
+        A = cfg["coordinator"]["agents"]["Attacker"]
+        A["start_position"] = dict(copy.deepcopy(nsgenv.EMPTY_PART), controlled_hosts=["213.47.23.195", "192.168.2.2", "192.168.1.2", "192.168.1.3"])
+        g0 = copy.deepcopy(nsgenv.EMPTY_PART)
+        g0["known_data"] = {"192.168.1.3": [["User1", "DataFromServer1"]]}
+        A["goal"] = dict(g0, description="goal", is_any_part_of_goal_random=False)
+        S = CR.Session(cfg, draw=draw)
+        a, b = ("10.2.18.1", 1), ("10.2.18.2", 2)
+        S.connect(a); S.connect(b); S.settle()
+        _join(S, a, "a", "Attacker"); _join(S, b, "b", "Attacker"); S.settle()
+        look, dlook = game_msg("FindData", source_host=ip("192.168.1.3"), target_host=ip("192.168.1.3"))
+        src, dsrc = game_msg("FindData", source_host=ip("192.168.1.2"), target_host=ip("192.168.1.2"))
+        ex, dex = game_msg("ExfiltrateData", source_host=ip("192.168.1.2"), target_host=ip("192.168.1.3"),
+                           data={"owner": "User1", "id": "DataFromServer1", "size": 0, "type": ""})
+        for it in range(2):
+            _scan(S, a); S.settle()
+            _scan(S, a); S.settle()
+            S.send(b, src, dsrc); S.settle()
+            S.send(a, look, dlook); S.settle()                          # a: third and last step, the goal is not reached
+            S.send(b, ex, dex); S.settle()                              # b: delivers into the host a just looked into
+            S.send(a, look, dlook); S.settle()                          # refused: the same view, reason and reward
+            if variant == 1:
+                _leave(S, b, "eof"); S.settle()
+                b = ("10.2.18.%d" % (3 + it), 3 + it)
+                S.connect(b); S.settle()
+                _join(S, b, "c", "Attacker"); S.settle()
+                S.send(b, src, dsrc); S.settle()
+                S.send(a, look, dlook); S.settle()
+                S.send(b, ex, dex); S.settle()
+                S.send(a, look, dlook); S.settle()
+            _reset(S, a, True); _reset(S, b, False); S.settle()
+    elif k == 17:
         # an attacker succeeds in one episode and fails in the next (and the other way round): the defender's reason and bonus
         # are decided by THIS episode's attackers only - nothing of an earlier episode counts
         cfg, draw = directed_config(rng, 2, 2)
@@ -623,7 +700,7 @@ def directed(rng, k):
         _join(S, b, "b", rng.choice(["Attacker", "Defender"])); S.settle()
         _join(S, a, "a2", "Attacker"); S.settle()                     # second join of a joined agent
         _scan(S, a); S.settle()
-        for gb in rng.sample(GARBAGE, 5) + [x for x in GARBAGE if '"extra"' in x or '"port"' in x or '"mask": 24}, "target_host"' in x or '"name": "lan"' in x or '"team"' in x or "3232235777" in x]:
+        for gb in rng.sample(GARBAGE, 5) + [x for x in GARBAGE if '"extra"' in x or '"port"' in x or '"mask": 24}, "target_host"' in x or '"name": "lan"' in x or '"team"' in x or "3232235777" in x] + TRAILING:
             S.send(rng.choice([a, b]), gb, {"kind": "garbage"}); S.settle()
         t, d = gen_invalid_game(rng)
         S.send(b, t, d); S.settle()
